@@ -24,6 +24,7 @@ const modPath = "github.com/openacid/low"
 type World struct {
 	Prog       *ssa.Program
 	Trusted    map[string]bool // functions whose contract is trusted (body not verified)
+	Checked    map[string][]string // functions with "checked" clauses (concrete-only, bounded)
 	concreteInterp map[string]*Term // concrete replay: values of uninterpreted spec functions
 	Fset       *token.FileSet
 	Pkgs       map[string]*ssa.Package
@@ -73,7 +74,7 @@ func LoadWorld(repo string, tags string, overlay map[string][]byte, patterns []s
 	w := &World{
 		Prog: prog, Fset: prog.Fset, Pkgs: map[string]*ssa.Package{}, PPkgs: map[string]*packages.Package{},
 		SpecFns: map[string]*SpecFn{}, Lemmas: map[string]*Lemma{}, FuncSpecs: map[string]*FuncSpec{},
-		SpecConsts: map[string]SVal{}, Assumes: map[string]bool{}, Trusted: map[string]bool{}, repo: repo, tags: tags,
+		SpecConsts: map[string]SVal{}, Assumes: map[string]bool{}, Trusted: map[string]bool{}, Checked: map[string][]string{}, repo: repo, tags: tags,
 		ErrIDs: map[*ssa.Global]int{},
 	}
 	for _, p := range prog.AllPackages() {
